@@ -238,8 +238,15 @@ def tier_algebra_design(c: Ctx, u: Unit, fn: ast.AST, self_: str) -> bool:
     if isinstance(it, ast.Name) and len(defs.get(it.id, [])) == 1:
         it = defs[it.id][0]
     # [e.event_id for e in ORDER[:k]]  |  ORDER[:k] iterated directly
-    if isinstance(it, (ast.ListComp, ast.GeneratorExp)) and len(it.generators) == 1 and not it.generators[0].ifs and isinstance(it.generators[0].target, ast.Name) \
-            and U(it.elt) == f'{it.generators[0].target.id}.event_id':
+    def id_of_element(comp) -> bool:
+        g_ = comp.generators[0]
+        if isinstance(g_.target, ast.Name):
+            return U(comp.elt) in (f'{g_.target.id}.event_id', f'{g_.target.id}[0]', f'{g_.target.id}[1].event_id')
+        if isinstance(g_.target, ast.Tuple) and len(g_.target.elts) == 2 and all(isinstance(x, ast.Name) for x in g_.target.elts):
+            return U(comp.elt) in (g_.target.elts[0].id, f'{g_.target.elts[1].id}.event_id')
+        return False
+
+    if isinstance(it, (ast.ListComp, ast.GeneratorExp)) and len(it.generators) == 1 and not it.generators[0].ifs and id_of_element(it):
         sl = it.generators[0].iter
     else:
         sl = it
